@@ -119,3 +119,16 @@ Definition judge_field (c : fcfg * list nat * bool * str * str) : N :=
        (option_eqb str_eqb (fread e (f_quote K) quoted r) (Some f))
        (field_ok K P qd f)
        (existsb (fun x => negb (N.leb 48 x && N.leb x 122)) f).
+
+(* suite rxescape: (escaped sequences, escape string, escape_escape_char, flag_prefix, flags (sorted),
+   regular expression text, impl result of SigmaRegularExpression(text, flags).escape(...)) *)
+From PS Require Import Model.RxEscape.
+Definition judge_rxescape (c : list str * str * bool * bool * str * str * str) : N :=
+  let '(escaped, ec, eec, fp, flags, s, r) := c in
+  let pre := rx_prefix fp flags in
+  let body := skipn (length pre) r in
+  let single := forallb (fun a => Nat.eqb (length a) 1) escaped && Nat.eqb (length ec) 1 in
+  bits (str_eqb (rx_escape escaped ec eec fp flags s) r)
+       (prefixb pre r && str_eqb (rx_unescape escaped ec eec body) s)
+       (single && eec && negb fp)
+       (existsb (fun x => existsb (fun a => prefixb a [x]) (rx_alts escaped ec eec)) s).
